@@ -136,6 +136,13 @@ class SequentialPlan(plans.plan.Plan):
         all_required: Dict[FNode, List["plans.plan.ActionInstance"]] = {}
         # graph stores the information gathered through the process
         graph = nx.DiGraph()
+        # the state invariants must hold after every action instance: every instance "reads"
+        # the fluents they mention, so that it keeps its order with the instances that write them
+        state_invariants_fluents: Set[FNode] = set()
+        for state_invariant in getattr(problem, "state_invariants", []):
+            state_invariants_fluents |= fve.get(
+                eqr.remove_quantifiers(state_invariant, problem)
+            )
         for action_instance in self.actions:
             graph.add_node(action_instance)
             assert isinstance(action_instance.action, InstantaneousAction)
@@ -144,7 +151,7 @@ class SequentialPlan(plans.plan.Plan):
             # required_fluents contains all the grounded fluents that this action_instance "reads"
             required_fluents: Set[FNode] = set()
             # same of required_fluents, but the fluents are lifted
-            lifted_required_fluents: Set[FNode] = set()
+            lifted_required_fluents: Set[FNode] = set(state_invariants_fluents)
             # add free vars of preconditions
             for prec in inst_action.preconditions:
                 lifted_required_fluents |= fve.get(
